@@ -43,6 +43,12 @@ CLAIMED = {
             "symbolic execution of the real DDM/EDDM/STEPD.update with z3 against an executable specification: all outcome "
             "sequences up to N with universally quantified thresholds and arbitrary integer labels (exact floats per path), "
             "plus one inductive step from an arbitrary state in real arithmetic"),
+    "C08": ("DESIGN.md 7/C08",
+            "np.min/ptp/unique().size of the partitioner module replaced by exact non-forking encodings (validated against "
+            "numpy each run); scipy.stats.entropy is a recording stub (its own mathematics trusted); cutpoint_proportion_lbound=0",
+            "symbolic execution of the real kdq-tree partitioner with z3 on arrays of symbolic points (ties and points on a "
+            "midpoint are solver-chosen): every tree shape within the bound is walked and cell membership, counts, split rule, "
+            "fill/accumulate/reset semantics, the +0.5 correction lemma and the arguments of the divergence calls are proved"),
     "C12": ("DESIGN.md 7/C12",
             "members modelled as the most general objects with the detector interface (arbitrary states/recommendations after "
             "every call); selectors as tagging functions; real-member runs reuse the kernel stubs of C01/C02",
